@@ -76,6 +76,165 @@ let scalar_draws draws =
                       (match scalar_of_be (bytes_of_hex v) with Some s -> Some s | None -> failwith "draw not canonical")
                     else None) draws
 
+
+(* ---------------------------------------------------------------- CL03 *)
+(* minimal JSON reader: flattens a serde_json document of a CL03 proof into the integer list the model's readers
+   expect: fields in document order, {"radix":r,"value":"..."} = one integer, a list is preceded by its length,
+   the optional member "proof_C_Ctrusted" by 0 (null) or 1 *)
+type json = JNull | JBool of bool | JNum of string | JStr of string | JArr of json list | JObj of (string * json) list
+
+let parse_json (s : string) : json =
+  let n = String.length s in
+  let pos = ref 0 in
+  let peek () = if !pos < n then s.[!pos] else '\000' in
+  let adv () = incr pos in
+  let rec ws () = if !pos < n && (match s.[!pos] with ' ' | '\n' | '\t' | '\r' -> true | _ -> false) then (adv (); ws ()) in
+  let expect c = ws (); if peek () <> c then failwith (Printf.sprintf "json: expected %c at %d" c !pos); adv () in
+  let str () =
+    expect '"';
+    let b = Buffer.create 16 in
+    let rec go () =
+      if !pos >= n then failwith "json: unterminated string";
+      let c = s.[!pos] in
+      adv ();
+      if c = '"' then ()
+      else if c = '\\' then begin
+        (if !pos >= n then failwith "json: bad escape");
+        let e = s.[!pos] in adv ();
+        (match e with
+         | 'n' -> Buffer.add_char b '\n' | 't' -> Buffer.add_char b '\t' | 'r' -> Buffer.add_char b '\r'
+         | 'u' -> pos := !pos + 4; Buffer.add_char b '?'
+         | c -> Buffer.add_char b c);
+        go () end
+      else (Buffer.add_char b c; go ()) in
+    go (); Buffer.contents b in
+  let rec value () : json =
+    ws ();
+    match peek () with
+    | '{' -> adv (); ws ();
+      if peek () = '}' then (adv (); JObj []) else begin
+        let rec members acc =
+          ws (); let k = str () in expect ':'; let v = value () in ws ();
+          if peek () = ',' then (adv (); members ((k, v) :: acc))
+          else (expect '}'; List.rev ((k, v) :: acc)) in
+        JObj (members []) end
+    | '[' -> adv (); ws ();
+      if peek () = ']' then (adv (); JArr []) else begin
+        let rec items acc =
+          let v = value () in ws ();
+          if peek () = ',' then (adv (); items (v :: acc)) else (expect ']'; List.rev (v :: acc)) in
+        JArr (items []) end
+    | '"' -> JStr (str ())
+    | 'n' -> pos := !pos + 4; JNull
+    | 't' -> pos := !pos + 4; JBool true
+    | 'f' -> pos := !pos + 5; JBool false
+    | _ ->
+      let st = !pos in
+      while !pos < n && (match s.[!pos] with '0'..'9' | '-' | '+' | '.' | 'e' | 'E' -> true | _ -> false) do adv () done;
+      if !pos = st then failwith "json: bad value";
+      JNum (String.sub s st (!pos - st)) in
+  let v = value () in ws ();
+  if !pos <> n then failwith "json: trailing characters";
+  v
+
+let big_of_radix (radix : int) (v : string) : Big_int_Z.big_int =
+  if radix = 10 then Big_int_Z.big_int_of_string v
+  else begin
+    let neg = String.length v > 0 && v.[0] = '-' in
+    let body = if neg then String.sub v 1 (String.length v - 1) else v in
+    let acc = ref Big_int_Z.zero_big_int in
+    String.iter (fun c ->
+        let d = match c with '0'..'9' -> Char.code c - 48 | 'a'..'z' -> Char.code c - 87 | 'A'..'Z' -> Char.code c - 55 | _ -> failwith "digit" in
+        if d >= radix then failwith "digit out of radix";
+        acc := Big_int_Z.add_int_big_int d (Big_int_Z.mult_int_big_int radix !acc)) body;
+    if neg then Big_int_Z.minus_big_int !acc else !acc
+  end
+
+let rec flatten (key : string) (j : json) : Big_int_Z.big_int list =
+  let opt = (key = "proof_C_Ctrusted") in
+  match j with
+  | JNull -> if opt then [Big_int_Z.zero_big_int] else failwith "json: unexpected null"
+  | JObj [("radix", JNum r); ("value", JStr v)] -> big_of_radix (int_of_string r) v
+                                                   |> fun x -> [x]
+  | JObj members ->
+    let body = List.concat_map (fun (k, v) -> flatten k v) members in
+    if opt then Big_int_Z.unit_big_int :: body else body
+  | JArr items -> Big_int_Z.big_int_of_int (List.length items) :: List.concat_map (flatten "") items
+  | JNum s -> [Big_int_Z.big_int_of_string s]
+  | _ -> failwith "json: unexpected leaf"
+
+let string_of_hex h =
+  let b = Bytes.create (String.length h / 2) in
+  for i = 0 to String.length h / 2 - 1 do
+    Bytes.set b i (Char.chr (int_of_string ("0x" ^ String.sub h (2*i) 2)))
+  done; Bytes.to_string b
+
+let t_z t = Big_int_Z.big_int_of_string t
+let t_zl t = List.map Big_int_Z.big_int_of_string (split_list t)
+let t_opt_zl t = if t = "N" then None else Some (t_zl t)
+let t_opt_z t = if t = "N" then None else Some (t_z t)
+let t_doc t = flatten "" (parse_json (string_of_hex (String.sub t 1 (String.length t - 1))))
+
+(* CL draws: "bits(192)=123", "int(-5;5)=3" *)
+let cl_draws (draws : (string * string) list) : draw list =
+  List.map (fun (k, v) ->
+      let name, params =
+        match String.index_opt k '(' with
+        | Some i -> (String.sub k 0 i,
+                     List.map Big_int_Z.big_int_of_string (String.split_on_char ';' (String.sub k (i+1) (String.length k - i - 2))))
+        | None -> (k, []) in
+      let kind = match name with "bits" -> 0 | "number" -> 1 | "prime" -> 2 | "int" -> 3 | _ -> failwith ("draw kind " ^ name) in
+      { d_kind = bi kind; d_params = params; d_val = Big_int_Z.big_int_of_string v }) draws
+
+let print_tok = function
+  | TI z -> Big_int_Z.string_of_big_int z
+  | TL l -> String.concat "," ("Z" :: List.map Big_int_Z.string_of_big_int l)
+  | TB b -> hx b
+
+let cl_suite_id = function "toy" -> bi 0 | "cl1024" -> bi 1 | "cl2048" -> bi 2 | "cl3072" -> bi 3 | s -> failwith ("cl suite " ^ s)
+
+let run_cl (op : string) (args : string array) (draws : (string * string) list) : tokv list outcome =
+  let a i = args.(i) in
+  let ds = cl_draws draws in
+  match op with
+  | "clrandbits" -> c_randbits (t_z (a 0)) ds
+  | "clrandint" -> c_randint (t_z (a 0)) (t_z (a 1)) ds
+  | "clrandnumber" -> c_randnumber (t_z (a 0)) ds
+  | "clrandprime" -> c_randprime (t_z (a 0)) ds
+  | "clrandqr" -> c_randqr (t_z (a 0)) ds
+  | _ ->
+    let k = cl_suite_id (a 0) in
+    (match op with
+     | "clparams" -> c_params k
+     | "clmap" -> c_map (t_bytes (a 1))
+     | "clkeygen" -> c_keygen k ds
+     | "clbases" -> c_bases (t_z (a 1)) (nat_of_int (int_of_string (a 2))) ds
+     | "clcpk" -> c_cpk k (t_opt_z (a 1)) (if a 2 = "N" then None else Some (nat_of_int (int_of_string (a 2)))) ds
+     | "clsign" -> c_sign k (t_zl (a 1)) (t_zl (a 2)) (t_zl (a 3)) (t_zl (a 4)) ds
+     | "clsign1" -> c_sign1 k (t_zl (a 1)) (t_zl (a 2)) (t_zl (a 3)) (t_z (a 4)) ds
+     | "clverify" -> c_verify k (t_zl (a 1)) (t_zl (a 2)) (t_zl (a 3)) (t_zl (a 4))
+     | "clverify1" -> c_verify1 k (t_zl (a 1)) (t_zl (a 2)) (t_z (a 3)) (t_zl (a 4))
+     | "cldisclose" -> c_disclose (t_zl (a 1)) (t_zl (a 2)) (t_zl (a 3)) (t_idx (a 5))
+     | "clsigcodec" -> c_sigcodec k (t_zl (a 1))
+     | "clsigfrombytes" -> c_sigfrombytes k (t_bytes (a 1))
+     | "clpkcodec" -> c_pkcodec k (t_zl (a 1))
+     | "clpkfrombytes" -> c_pkfrombytes k (t_bytes (a 1))
+     | "clskcodec" -> c_skcodec k (t_zl (a 1))
+     | "clcommit" -> c_commit k (t_zl (a 1)) (t_zl (a 2)) (t_zl (a 3)) (t_opt_idx (a 4)) ds
+     | "clcommitcpk" -> c_commitcpk k (t_zl (a 1)) (t_zl (a 2)) (t_opt_idx (a 3)) ds
+     | "clextend" -> c_extend (t_zl (a 1)) (t_zl (a 2)) (t_zl (a 3)) (t_zl (a 4)) (t_opt_idx (a 5))
+     | "clzkgen" -> c_zkgen k (t_zl (a 1)) (t_zl (a 2)) (t_opt_zl (a 3)) (t_zl (a 4)) (t_zl (a 5)) (t_opt_zl (a 6)) (t_idx (a 7)) ds
+     | "clzkver" -> c_zkver k (t_doc (a 1)) (t_zl (a 2)) (t_opt_zl (a 3)) (t_zl (a 4)) (t_zl (a 5)) (t_opt_zl (a 6)) (t_idx (a 7))
+     | "clblindsign" -> c_blindsign k (t_zl (a 1)) (t_zl (a 2)) (t_zl (a 3)) (t_doc (a 4)) (t_opt_zl (a 5)) (t_zl (a 6))
+                          (t_opt_zl (a 7)) (t_opt_zl (a 8)) (t_idx (a 9)) (t_opt_idx (a 10)) ds
+     | "clunblind" -> c_unblind (t_zl (a 1)) (t_zl (a 2))
+     | "clupdate" -> c_update (t_zl (a 1)) (t_opt_zl (a 2)) (t_zl (a 3)) (t_zl (a 4)) (t_zl (a 5)) (t_zl (a 6)) (t_opt_idx (a 7))
+     | "clspokgen" -> c_spokgen k (t_zl (a 1)) (t_zl (a 2)) (t_zl (a 3)) (t_zl (a 4)) (t_zl (a 5)) (t_idx (a 6)) ds
+     | "clspokver" -> c_spokver k (t_doc (a 1)) (t_zl (a 2)) (t_zl (a 3)) (t_zl (a 4)) (t_zl (a 5)) (t_idx (a 6)) (nat_of_int (int_of_string (a 7)))
+     | "clrpprove" -> c_rpprove (t_z (a 1)) (t_zl (a 2)) (t_z (a 3)) (t_z (a 4)) (t_z (a 5)) (t_z (a 6)) (t_z (a 7)) ds
+     | "clrpverify" -> c_rpverify (t_doc (a 1)) (t_z (a 2)) (t_z (a 3)) (t_z (a 4)) (t_z (a 5)) (t_z (a 6))
+     | _ -> failwith ("unknown cl op " ^ op))
+
 let run_case (toks : string list) : string =
   (* strip queue prefix and draw suffix *)
   let toks = match toks with q :: r when String.length q >= 1 && q.[0] = 'Q' && (String.length q = 1 || q.[1] = ',') -> r | _ -> toks in
@@ -86,6 +245,11 @@ let run_case (toks : string list) : string =
   let op, args = match toks with o :: a -> (o, Array.of_list a) | [] -> failwith "empty" in
   let shake_of s = (match s with "sha" -> suite_name := "sha"; false | "shake" -> suite_name := "shake"; true | _ -> failwith ("suite " ^ s)) in
   let a i = args.(i) in
+  if String.length op >= 2 && String.sub op 0 2 = "cl" then begin
+    match run_cl op args draws with
+    | Ok l -> String.concat " " ("OK" :: List.map print_tok l)
+    | Err -> "ERR" | Panic -> "PANIC" | NoDraw -> "NODRAW"
+  end else
   let res : bytes list outcome =
     match op with
     | "dec" ->
